@@ -1741,3 +1741,39 @@ CASES += [
             };
         }"""),
 ]
+
+# ------------------------------------------------------------------ SH2 literal case of the SDD condition, evaluated per path
+CASES += [
+    dict(name="sh2-sdd-literal-flipped", file=SB, rule="SH", props=["C03"], expect="condition:SH2:literal",
+         old="""                    if polarity == value {
+                        SddPtr::PtrTrue
+                    } else {
+                        SddPtr::PtrFalse
+                    }""",
+         new="""                    if polarity == value {
+                        SddPtr::PtrFalse
+                    } else {
+                        SddPtr::PtrTrue
+                    }"""),
+    dict(name="sh2-sdd-literal-other-label-conditioned", file=SB, rule="SH", props=["C03"], expect="condition:SH2:literal",
+         old="""                if label == lbl {
+                    if polarity == value {""",
+         new="""                if label != lbl {
+                    if polarity == value {"""),
+    dict(name="sh2-sdd-literal-guards-ok", file=SB, rule="SH", props=["C03"], expect=None,
+         old="""            SddPtr::Var(label, polarity) => {
+                if label == lbl {
+                    if polarity == value {
+                        SddPtr::PtrTrue
+                    } else {
+                        SddPtr::PtrFalse
+                    }
+                } else {
+                    f
+                }
+            }""",
+         new="""            SddPtr::Var(label, _) if label != lbl => f,
+            SddPtr::Var(_, true) if value => SddPtr::PtrTrue,
+            SddPtr::Var(_, false) if !value => SddPtr::PtrTrue,
+            SddPtr::Var(..) => SddPtr::PtrFalse,"""),
+]
